@@ -32,3 +32,18 @@ CONSTANTS = {
 
 # Relative tolerance for anything multiplied by a unit factor: covers the CODATA 2014/2018/2022 drift (<= 1.4e-9).
 RTOL = 3e-9
+
+
+def named_ratio(ratio, rtol=1e-6):
+    """Name of the unit factor a ratio (loaded / expected) corresponds to, or None."""
+    table = {
+        "1/amu": 1 / amu, "amu": amu, "1/angstrom": 1 / angstrom, "angstrom": angstrom, "1/debye": 1 / debye, "debye": debye,
+        "1/(debye*angstrom)": 1 / (debye * angstrom), "debye*angstrom": debye * angstrom, "1/electronvolt": 1 / electronvolt,
+        "electronvolt": electronvolt, "1/nanometer": 1 / nanometer, "nanometer": nanometer, "angstrom^2": angstrom**2,
+        "1/angstrom^2": angstrom**-2, "angstrom^3": angstrom**3, "1/angstrom^3": angstrom**-3, "1/kcalmol": 1 / kcalmol,
+        "kcalmol": kcalmol, "1/kjmol": 1 / kjmol, "kjmol": kjmol, "sqrt(amu)": amu**0.5, "1/sqrt(amu)": amu**-0.5, "-1": -1.0,
+    }
+    for name, val in table.items():
+        if abs(ratio / val - 1) < rtol:
+            return name
+    return None
